@@ -134,6 +134,10 @@ func (c *Authority) VerifyQuorumCert(qc hotstuff.QuorumCert) error {
 	if !ok {
 		return fmt.Errorf("block not found: %v", qc.BlockHash())
 	}
+	// the signatures cover the block only; the view claimed by the QC must be the block's view.
+	if qc.View() != block.View() {
+		return fmt.Errorf("quorum certificate view %d does not match block view %d", qc.View(), block.View())
+	}
 	return c.Verify(qc.Signature(), block.ToBytes())
 }
 
